@@ -1,5 +1,5 @@
 """Property theorems of the writers area whose assumptions are printed and pinned by the checks."""
-C08 = ["C08_byte_run_is_sample_run", "C08_byte_write_is_sample_write", "C08_channel_run_is_sample_run", "C08_chunking_sample", "C08_chunking_byte", "C08_chunking_channel", "C08_frontends_channel_block",
+C08 = ["C08_byte_run_is_sample_run", "C08_byte_write_is_sample_write", "C08_channel_write_is_sample_write", "C08_channel_run_is_sample_run", "C08_chunking_sample", "C08_chunking_byte", "C08_chunking_channel", "C08_frontends_channel_block",
        "C08_frontends_byte_le_block", "C08_frontends_byte_be_block", "C08_partial_dropped_sample",
        "C08_no_panic_sample_debug", "C08_nonvacuous"]
 C15 = ["C15_options_block_size", "C15_options_max_lpc_order", "C15_options_max_partition_order",
